@@ -208,7 +208,12 @@ pub fn exec(case: &Case, sc: &Script, mut stats: Option<&mut Stats>, keep_log: b
     // `spec_defined = false`: no output oracle, only the error-propagation invariants.
     let call = sc.call.clone();
     let spec_defined = match (&call, v.fixed.is_some()) {
-        (Call::Spec(i, _, _), false) => *i % SPECS.len() == 0,
+        // (a caller spec WITHOUT width and precision - sign, `#`, `0`, fill and alignment only - leaves a string and an
+        // `Arguments` alike as they are: there the rendering of the literal is the one defined output)
+        (Call::Spec(i, _, _), false) => {
+            let sp = &SPECS[*i % SPECS.len()];
+            !sp.uses_w && !sp.uses_p
+        }
         _ => true,
     };
     // ---- reference (fault-free sink; it can still end in Err when a payload's own Display fails) ----
